@@ -661,7 +661,7 @@ def base_cases(tier):
             for st, ds in (("always", "update"), ("never", "bykey-regex")):
                 yield (tri, "disjoint", base_opts(strategy=st, doc_sync=ds, recursive=True), "Project.sync")
     # job-level synchronization onto a destination job that does not exist yet (a handle with the same state point)
-    for name in ():  # ENABLE_AFTER_FIX ("src-only", "src-new-files"):
+    for name in ("src-only", "src-new-files"):
         for ds in ("default", "copy", "update"):
             for entry in ("Job.sync", "sync_jobs"):
                 if name == "src-new-files":
